@@ -621,6 +621,18 @@ impl Prop for C11 {
             })
             .boxed()
     }
+    fn fuzz_sanitize(k: &mut FaultCase) -> bool {
+        k.cols %= 7;
+        k.rows %= 7;
+        if k.cols == 0 || k.rows == 0 {
+            k.cols = 0;
+            k.rows = 0;
+        }
+        if k.elem == ElemKind::U32 {
+            k.elem = ElemKind::Tr;
+        }
+        true
+    }
     fn random_cases(tier: Tier) -> u64 {
         if tier == Tier::Quick { 20_000 } else { 400_000 }
     }
@@ -866,6 +878,18 @@ impl Prop for C12 {
                 LeakCase { elem, cols, rows, exact_cap, what, at, front, back }
             })
             .boxed()
+    }
+    fn fuzz_sanitize(k: &mut LeakCase) -> bool {
+        k.cols %= 15;
+        k.rows %= 15;
+        if k.cols == 0 || k.rows == 0 {
+            k.cols = 0;
+            k.rows = 0;
+        }
+        if k.elem == ElemKind::U32 {
+            k.elem = ElemKind::Tr;
+        }
+        true
     }
     fn random_cases(tier: Tier) -> u64 {
         if tier == Tier::Quick { 30_000 } else { 600_000 }
